@@ -61,6 +61,10 @@ CHECKS = {
             "Programs are assembled through the Python API from a 117-value alphabet (every supported kind, edge values such as negative zero, subnormals, 1e+-300, int64 extremes, overlapping parameter names) in every position (positional, keyword, target option, type option), all ordered pairs, lists x lists, mode lists as ints and np.int64, with/without args keys, pairs of arrays x metadata variants (hoisting/numbering). dumps must succeed, the text must load, and the result must be equivalent (arrays bit-exact incl. sign of zero).",
             "Operations carry both or neither of args/kwargs; strings quote-free. Three recorded findings (empty list, functions of parameters, arrays in metadata options).",
             "DESIGN.md section 5 C09"),
+    "C15": ("exploration", "bounded-exhaustive enumeration of tdm scripts (p-array name x type x shape x usage x neighbouring features) vs reference model + round trip",
+            "Every tdm script of the stated families (p0/p1/p12 arrays of every element type and shape in every usage, non-p look-alike names, scalars named p0, p-arrays next to every ordinary variable kind, template parameters and loops, also with another type and without type) is loaded and compared with the reference model (argument delivered as the name, variables keep the array, no p-name among the parameters, is_template iff a {} parameter was written), then serialised and re-loaded (p-arrays exact, references and operations preserved).",
+            "Extra hoisted variables after re-load not compared.",
+            "DESIGN.md section 5 C15"),
     # id: (category, technique, text, note, design_ref)
     "C02": ("exploration", "bounded-exhaustive enumeration of script prefixes (BFS over item sequences) vs reference denotation",
             "Every item sequence over the statement menu up to the stated depth is rendered, loaded by the real parser/evaluator and compared with an independently written reference denotation; complete for the stated alphabet and depth, nothing beyond.",
